@@ -34,6 +34,19 @@ func c06History(r *h.Rng, p *h.Plan, n int) {
 	p.Cfg["locs"] = toIface([]string{"L", "P"})
 	var facts []map[string]interface{}
 	var whens []map[string]interface{}
+	// related rules: some histories draw their `when` patterns from one small
+	// family (the same key with a nested map, a constant, a variable below it),
+	// so that what one rule's removal or replacement does to the index that the
+	// others share shows in the live location - a reload builds the index anew
+	family := []map[string]interface{}{
+		{"order": map[string]interface{}{"item": "?x"}},
+		{"order": map[string]interface{}{"item": "book"}},
+		{"order": map[string]interface{}{"item": "book", "qty": float64(1)}},
+		{"order": "any"},
+		{"order": "?o"},
+		{"order": map[string]interface{}{"to": map[string]interface{}{"city": "?c"}}},
+	}
+	related := r.P(1, 4)
 	for i := 0; i < n; i++ {
 		switch r.Weighted([]int{8, 3, 4, 2, 2, 1, 1, 1, 1}) {
 		case 0:
@@ -56,6 +69,9 @@ func c06History(r *h.Rng, p *h.Plan, n int) {
 			p.Ops = append(p.Ops, h.Op{K: "remfact", Loc: "L", Id: r.Pick(ids)})
 		case 2:
 			w := genWhen(r)
+			if related && r.P(3, 4) {
+				w = h.CloneMap(family[r.Intn(len(family))])
+			}
 			whens = append(whens, w)
 			rule := genRuleBody(r, w, false)
 			if r.P(1, 5) {
@@ -96,6 +112,10 @@ func c06History(r *h.Rng, p *h.Plan, n int) {
 	patterns = append(patterns, map[string]interface{}{"rule": "?r"})
 	for i := 0; i < 3 && len(whens) > 0; i++ {
 		events = append(events, h.GenEventFrom(r, whens[r.Intn(len(whens))], h.GenOpts{Depth: 1}, false))
+	}
+	if related {
+		events = append(events, map[string]interface{}{"order": map[string]interface{}{"item": "book", "qty": float64(1), "to": map[string]interface{}{"city": "x"}}},
+			map[string]interface{}{"order": "any"})
 	}
 	p.Cfg["patterns"] = patterns
 	p.Cfg["events"] = events
